@@ -18,13 +18,14 @@ namespace MlModel.Merged
 
 /-! ## Specification: Python list semantics -/
 
+def orIndexError {α : Type} : Option α → Except ErrKind α
+  | some a => .ok a
+  | none => .error .index
+
 /-- Python `xs[i]` on a list: negative `i` counts from the end, out of range → `IndexError`. -/
 def pyIndex {α : Type} (xs : List α) (i : Int) : Except ErrKind α :=
   let j : Int := if i < 0 then i + xs.length else i
-  if j < 0 then .error .index
-  else match xs[j.toNat]? with
-    | some a => .ok a
-    | none => .error .index
+  if j < 0 then .error .index else orIndexError xs[j.toNat]?
 
 /-- One bound of `slice(a, b).indices(n)` (step `None`): `None` → default, negative → `+ n`
 clamped at `0`, large → clamped at `n`. -/
@@ -100,21 +101,25 @@ structure Rng where
 def sliceIndices (n : Nat) (a b : Option Int) : Nat × Nat :=
   (clampBound n 0 a, clampBound n n b)
 
+/-- The part of `MergedSequences.slice` after the bounds are normalised to `0 <= s < e <= len(self)`:
+`start, stop = self._index(s), self._index(e)` and the list of range iterators that are chained. -/
+def rangesBetween (lens : List Nat) (s e : Nat) : List Rng :=
+  let start := locate lens s
+  let stop := locate lens e
+  if start.1 = lens.length then []                         -- `start.seq_idx == len(self._sequences)`
+  else if start.1 = stop.1 then [⟨start.1, start.2.getD 0, stop.2⟩]
+  else
+    ⟨start.1, start.2.getD 0, none⟩
+      :: ((List.range' (start.1 + 1) (stop.1 - (start.1 + 1))).map fun s => (⟨s, 0, none⟩ : Rng))
+      ++ (match stop.2 with                                 -- `if stop.idx:`
+          | some (k + 1) => [⟨stop.1, 0, some (k + 1)⟩]
+          | _ => [])
+
 /-- `MergedSequences.slice(slice(a, b))` (repaired): the list of range iterators chained together. -/
 def sliceRanges (lens : List Nat) (a b : Option Int) : List Rng :=
   let se := sliceIndices (total lens) a b
   if se.1 ≥ se.2 then []                                   -- `if start >= stop: return iter(())`
-  else
-    let start := locate lens se.1
-    let stop := locate lens se.2
-    if start.1 = lens.length then []                       -- `start.seq_idx == len(self._sequences)`
-    else if start.1 = stop.1 then [⟨start.1, start.2.getD 0, stop.2⟩]
-    else
-      ⟨start.1, start.2.getD 0, none⟩
-        :: ((List.range' (start.1 + 1) (stop.1 - (start.1 + 1))).map fun s => (⟨s, 0, none⟩ : Rng))
-        ++ (match stop.2 with                               -- `if stop.idx:`
-            | some (k + 1) => [⟨stop.1, 0, some (k + 1)⟩]
-            | _ => [])
+  else rangesBetween lens se.1 se.2
 
 /-- What a range iterator yields on a failure-free sequence. -/
 def rngElems {α : Type} (parts : List (List α)) (r : Rng) : List α :=
